@@ -36,6 +36,7 @@ STUBS = [
     'ConsumerMdib gets a stub client (sdc_definitions, log_prefix); the thread that fires sequence_or_instance_id_changed_event is '
     'replaced by a direct call',
     'logging disabled',
+    'the `time` module inside the mdib modules is a concrete increasing clock (wall-clock stamps are not the subject)',
 ]
 
 SEQ = 'urn:uuid:11111111-1111-1111-1111-111111111111'
@@ -70,6 +71,40 @@ def _identity_node(self, *_a, **_k):
     return self
 
 
+class _FrozenTime:
+    """Stands in for the `time` module inside the MDIB modules: a concrete, strictly increasing clock.
+
+    Under CrossHair the real time.time() returns a SYMBOLIC float (two extra branches per call: isfinite / isnan) which only
+    multiplies paths here - wall-clock values (DeterminationTime, BindingStartTime ...) are not the subject of these harnesses."""
+
+    def __init__(self):
+        self._now = 1700000000.0
+
+    def time(self):
+        self._now += 0.125
+        return self._now
+
+    def monotonic(self):
+        return self.time()
+
+    def perf_counter(self):
+        return self.time()
+
+    def sleep(self, _s):
+        return None
+
+
+FROZEN_TIME = _FrozenTime()
+
+
+def _freeze_time():
+    import importlib
+    for name in ('sdc11073.mdib.consumermdib', 'sdc11073.mdib.consumermdibxtra', 'sdc11073.mdib.providermdibxtra',
+                 'sdc11073.mdib.statecontainers', 'sdc11073.mdib.transactions', 'sdc11073.provider.periodicreports'):
+        importlib.import_module(name).time = FROZEN_TIME
+
+
+_freeze_time()
 msg_types.EpisodicContextReport.as_etree_node = _identity_node
 msg_types.DescriptionModificationReport.as_etree_node = _identity_node
 consumermdib_mod.threading = types.SimpleNamespace(Thread=_SyncThread)
@@ -181,9 +216,9 @@ def mk_provider(mv=0, **kw):
     return mdib, cap
 
 
-def mk_consumer(mv=0, **kw):
+def mk_consumer(mv=0, containers=None, **kw):
     mdib = ConsumerMdib(StubClient())
-    ds = mk_containers(**kw)
+    ds = containers if containers is not None else mk_containers(**kw)
     set_source_mds(ds)
     mdib.add_description_containers(ds)
     mdib.add_state_containers(mk_states(mdib, ds))
